@@ -3,7 +3,7 @@ import z3
 
 from pyvc import ops, specfn
 from pyvc.interp import LoopSpec
-from pyvc.sym import SSeq, SBool, ListObj, ExcObj, PyRaise, SeqI, mk_bool, mk_int, as_int_term
+from pyvc.sym import SSeq, SBool, ListObj, ExcObj, PyRaise, SeqI, mk_bool, mk_int, as_int_term, Unsupported
 from pyvc.unit import Contract, Case, Is, NOTHING, Lemma, find_function
 from contracts import objs
 from contracts import hexmodel as HM
@@ -310,10 +310,32 @@ def tf_cases(E, ctx):
         return out
 
     make = None if unit_mode else tf_result_facts(E, D0, K)
+    db = ctx.self.fields["db"]
     return [Case("reached", ensures=ens, make=make),
-            Case("missing-node", raises=mtn_cls(E), make=None if unit_mode else mtn_make(E),
-                 exc=lambda e: [("hash-is-absent", mk_bool(z3.Not(z3.Select(ctx.old_has(ctx.self.fields["db"]), HM.bytes_of(e.args[0])))))
-                                if e.args else ("hash-is-absent", False)])]
+            Case("missing-node", raises=mtn_cls(E), make=None if unit_mode else mtn_make(E, ctx.old_has(db), D0, K),
+                 exc=lambda e: missing_clauses(E, e, ctx.old_has(db), D0, K, E.ghost.get("ks")))]
+
+
+def missing_clauses(E, e, old_has, D0, K, ks, at=(0, 1)):
+    """what a MissingTraversalNode(h, used) / MissingTrieNode(h, root, key, used) raised by a walk from D0 along K
+    must say (C07): h is absent from the database, `used` is the prefix of K consumed so far, and the node h denotes
+    sits on the requested path right after `used`: looking K ++ ks up below D0 is looking the rest up below that node
+    (ks: arbitrary ghost continuation)"""
+    ih, iu = at
+    if len(e.args) <= max(ih, iu):
+        return [("exception-carries-hash-and-prefix", False)]
+    try:
+        h = HM.bytes_of(e.args[ih])
+        used = ops.seq_term_as(e.args[iu], "int")
+    except Unsupported:
+        return [("exception-carries-hash-and-prefix", False)]
+    out = [("hash-is-absent", mk_bool(z3.Not(z3.Select(old_has, h)))),
+           ("traversed-is-a-prefix-of-the-key", mk_bool(z3.PrefixOf(used, K)))]
+    if ks is not None:
+        rest = z3.Concat(HM.tail(K, z3.Length(used)), ks)
+        out.append(("missing-node-is-on-the-path",
+                    mk_bool(HM.hlk(D0, z3.Concat(K, ks)) == HM.hlk(HM.hnode_of_hash(h), rest))))
+    return out
 
 
 def _step_facts(E, node, rem, ks):
@@ -369,6 +391,7 @@ def _register_read(reg):
 def root_ref_setup(E, with_key_bytes=False):
     t = read_trie(E)
     args = {"self": t}
+    E.ghost["ks"] = HM.nibs(E, "ks").t      # ghost continuation of the key (C07: the missing node is on the path)
     if with_key_bytes:
         args["key"] = E.fresh_seq("key", "bytes")
     else:
@@ -400,15 +423,19 @@ def tf_result_facts(E, D0, K):
     return make
 
 
-def mtn_make(E):
+def mtn_make(E, old_has=None, D0=None, K=None):
     def make():
-        return ExcObj(mtn_cls(E), (objs.hash32(E, "missing"), HM.nibs(E, "traversed")))
+        e = ExcObj(mtn_cls(E), (objs.hash32(E, "missing"), HM.nibs(E, "traversed")))
+        if old_has is not None:
+            for (_n, c) in missing_clauses(E, e, old_has, D0, K, E.ghost.get("ks")):
+                E.assume(c)
+        return e
     return make
 
 
 def tf_cases_callee(E, ctx, D0, K):
     return [Case("reached", make=tf_result_facts(E, D0, K)),
-            Case("missing-node", raises=mtn_cls(E), make=mtn_make(E))]
+            Case("missing-node", raises=mtn_cls(E), make=mtn_make(E, ctx.old_has(ctx.self.fields["db"]), D0, K))]
 
 
 def traverse_cases(E, ctx):
@@ -425,7 +452,9 @@ def traverse_cases(E, ctx):
         for (Dr, rr, Ds, Ks) in E.ghost.get("hview_rules", []):
             pass
         return [("view", mk_bool(HM.hlk(Dn, rt) == HM.hlk(D0, K))), ("remaining-is-a-suffix", mk_bool(suffix_of(rt, K)))]
-    return [Case("reached", ensures=ens), Case("missing-node", raises=mtn_cls(E))]
+    return [Case("reached", ensures=ens),
+            Case("missing-node", raises=mtn_cls(E),
+                 exc=lambda e: missing_clauses(E, e, ctx.old_has(ctx.self.fields["db"]), D0, K, E.ghost.get("ks")))]
 
 
 def get_internal_cases(E, ctx):
@@ -439,8 +468,10 @@ def get_internal_cases(E, ctx):
             HM.unfold_hlk(E, Dn, rt)
             HM.unfold_wf(E, Dn)
             SL.use(E, "prefix_antisym", rt, HNode.epath(Dn))
+    old_has = ctx.old_has(ctx.self.fields["db"])
     return [Case("value", returns=lambda: SSeq(want, "bytes")),
-            Case("missing-node", raises=mtn_cls(E), make=mtn_make(E))]
+            Case("missing-node", raises=mtn_cls(E), make=mtn_make(E, old_has, D0, K),
+                 exc=lambda e: missing_clauses(E, e, old_has, D0, K, E.ghost.get("ks")))]
 
 
 def get_cases(E, ctx):
@@ -450,7 +481,30 @@ def get_cases(E, ctx):
     K = B2N(ops.seq_term_as(ctx.key, "int"))
     want = HM.hlk(D0, K)
     return [Case("value", returns=lambda: SSeq(want, "bytes")),
-            Case("missing-node", raises=objs.exc(E, "MissingTrieNode"))]
+            Case("missing-node", raises=objs.exc(E, "MissingTrieNode"), exc=lambda e: mtn_api_clauses(E, ctx, e, D0, K, root),
+                 make=None if hasattr(ctx, "outcome") else (lambda: mtn_api_make(E, ctx, D0, K, root)))]
+
+
+def mtn_api_make(E, ctx, D0, K, root, with_prefix=True):
+    e = ExcObj(objs.exc(E, "MissingTrieNode"), (objs.hash32(E, "missing"), SSeq(root, "bytes"), ctx.key,
+                                                 HM.nibs(E, "prefix") if with_prefix else None))
+    for (_n, c) in mtn_api_clauses(E, ctx, e, D0, K, root, with_prefix):
+        E.assume(c)
+    return e
+
+
+def mtn_api_clauses(E, ctx, e, D0, K, root, with_prefix=True):
+    """MissingTrieNode(h, root_hash, key, prefix) raised by a public entry point (C07): the report is truthful"""
+    if len(e.args) < 4:
+        return [("exception-carries-hash-root-key-prefix", False)]
+    old_has = ctx.old_has(ctx.self.fields["db"])
+    out = [("names-the-root", ops.py_eq(e.args[1], SSeq(root, "bytes"))),
+           ("names-the-key", ops.py_eq(e.args[2], ctx.key))]
+    if with_prefix:
+        out += missing_clauses(E, e, old_has, D0, K, E.ghost.get("ks"), at=(0, 3))
+    else:
+        out += [("hash-is-absent", mk_bool(z3.Not(z3.Select(old_has, HM.bytes_of(e.args[0])))))]
+    return out
 
 
 def exists_cases(E, ctx):
@@ -460,7 +514,8 @@ def exists_cases(E, ctx):
     K = B2N(ops.seq_term_as(ctx.key, "int"))
     want = HM.hlk(D0, K)
     return [Case("answer", returns=lambda: mk_bool(z3.Length(want) > 0)),
-            Case("missing-node", raises=objs.exc(E, "MissingTrieNode"))]
+            Case("missing-node", raises=objs.exc(E, "MissingTrieNode"), exc=lambda e: mtn_api_clauses(E, ctx, e, D0, K, root),
+                 make=None if hasattr(ctx, "outcome") else (lambda: mtn_api_make(E, ctx, D0, K, root)))]
 
 
 def _register_read2(reg):
@@ -474,7 +529,7 @@ def _register_read2(reg):
     reg.add(g, Contract(H + "get", ["self", "key"], get_cases, setup=lambda E: root_ref_setup(E, True),
                         props=("C01", "C03", "C07")))
     reg.add(g, Contract(H + "exists", ["self", "key"], exists_cases, setup=lambda E: root_ref_setup(E, True),
-                        props=("C01",)))
+                        props=("C01", "C07")))
     reg.add(g, Contract(H + "__getitem__", ["self", "key"], get_cases, setup=lambda E: root_ref_setup(E, True),
                         props=("C01",)))
     reg.add(g, Contract(H + "__contains__", ["self", "key"], exists_cases, setup=lambda E: root_ref_setup(E, True),
@@ -783,9 +838,27 @@ def set_cases(E, ctx):
         return [("store-only-grows", mk_bool(grows()))]
     # the argument list may be modified in place; in callee mode it is poisoned instead of havoced (see make)
     mods = [db] + ([ctx.node] if (unit_mode and isinstance(ctx.node, ListObj)) else [])
+    # C07: a failed _set has written nothing (reads precede writes) and names a hash that is absent
     return [Case("updated", ensures=ens if unit_mode else None, make=None if unit_mode else make, post=post, modifies=mods),
-            Case("missing-node", raises=KeyError, post=post, modifies=mods,
-                 make=None if unit_mode else (lambda: ExcObj(KeyError, (objs.hash32(E, "missing"),))))]
+            Case("missing-node", raises=KeyError, modifies=[], exc=lambda e: keyerror_clauses(e, ctx.old_has(db)),
+                 make=None if unit_mode else (lambda: keyerror_make(E, ctx.old_has(db))))]
+
+
+def keyerror_clauses(e, old_has):
+    if len(e.args) != 1:
+        return [("names-the-hash", False)]
+    try:
+        h = HM.bytes_of(e.args[0])
+    except Unsupported:
+        return [("names-the-hash", False)]
+    return [("hash-is-absent", mk_bool(z3.Not(z3.Select(old_has, h))))]
+
+
+def keyerror_make(E, old_has):
+    e = ExcObj(KeyError, (objs.hash32(E, "missing"),))
+    for (_n, c) in keyerror_clauses(e, old_has):
+        E.assume(c)
+    return e
 
 
 def _key_pair_facts_hex(E, K, q, D):
@@ -821,7 +894,7 @@ def _register_write(reg):
     g = "hexary_write"
     H = HEX + ":HexaryTrie."
     reg.add(g, Contract(H + "_set", ["self", "node", "trie_key", "value"], set_cases, setup=set_setup,
-                        requires=set_requires, props=("C01",)))
+                        requires=set_requires, props=("C01", "C02", "C04", "C07")))
 
 
 # ---------------------------------------------------------------------------------------------------
@@ -890,7 +963,8 @@ def norm_cases(E, ctx):
         return HM.materialize(E, Dn)
     return [Case("kept", when=mk_bool(cnt >= 2), returns=lambda: Is(node)),
             Case("collapsed", when=mk_bool(cnt == 1), ensures=ens if unit_mode else None, make=None if unit_mode else make),
-            Case("missing-node", when=mk_bool(cnt == 1), raises=KeyError)]
+            Case("missing-node", when=mk_bool(cnt == 1), raises=KeyError, exc=lambda e: keyerror_clauses(e, ctx.old_has(db)),
+                 make=None if unit_mode else (lambda: keyerror_make(E, ctx.old_has(db))))]
 
 
 def del_setup(E):
@@ -952,9 +1026,43 @@ def del_cases(E, ctx):
             ctx.node.seq = None
         return HM.materialize(E, Dn)
     mods = [db] + ([ctx.node] if (unit_mode and isinstance(ctx.node, ListObj)) else [])
-    return [Case("updated", ensures=ens if unit_mode else None, make=None if unit_mode else make, modifies=mods),
-            Case("missing-node", raises=KeyError, modifies=mods,
-                 make=None if unit_mode else (lambda: ExcObj(KeyError, (objs.hash32(E, "missing"),))))]
+    lmods = [ctx.node] if (unit_mode and isinstance(ctx.node, ListObj)) else []
+    x = z3.Const("x!grow", SeqI)
+
+    def post():
+        return [("store-only-grows", mk_bool(z3.ForAll([x], z3.Implies(z3.Select(ctx.old_has(db), x), z3.And(
+            z3.Select(db.has, x), z3.Select(db.val, x) == z3.Select(ctx.old_val(db), x))),
+            patterns=[z3.Select(db.has, x), z3.Select(db.val, x)])))]
+    # the result is blank exactly when the node was blank or was the leaf of the key (an extension sits over a branch
+    # and a branch never collapses to nothing); in that case nothing is written at all -- which is what makes a later
+    # failure of _normalize_branch_node in the caller happen before any write (C07: failed calls leave the store as
+    # it was)
+    emptied = z3.Or(HNode.is_HBlank(Dold), z3.And(HNode.is_HLeaf(Dold), HNode.lpath(Dold) == K))
+
+    def make_emptied():
+        E.ghost.setdefault("hview_rules2", []).append(
+            (HNode.HBlank, lambda Q: HM.hlk(HNode.HBlank, Q) == hview_after_del(Dold, K, Q), Dold))
+        return b""
+
+    def ens_emptied(res):
+        q = E.ghost["q0"]
+        HM.unfold_hlk(E, Dold, q, depth=1)
+        return [("blank", ops.py_eq(res, b"")), ("view", mk_bool(z3.Empty(SeqI) == hview_after_del(Dold, K, q)))]
+
+    def ens_updated(res):
+        return ens(res) + [("not-blank", mk_bool(z3.Not(HNode.is_HBlank(HM.alpha(res)))))]
+
+    def make_updated():
+        r = make()
+        E.assume(mk_bool(z3.Not(HNode.is_HBlank(HM.alpha(r)))))
+        return r
+    return [Case("emptied", when=mk_bool(emptied), ensures=ens_emptied if unit_mode else None,
+                 make=None if unit_mode else make_emptied, modifies=[]),
+            Case("updated", when=mk_bool(z3.Not(emptied)), ensures=ens_updated if unit_mode else None,
+                 make=None if unit_mode else make_updated, post=post, modifies=mods),
+            Case("missing-node", when=mk_bool(z3.Not(emptied)), raises=KeyError, modifies=lmods,
+                 exc=lambda e: keyerror_clauses(e, ctx.old_has(db)),
+                 make=None if unit_mode else (lambda: keyerror_make(E, ctx.old_has(db))))]
 
 
 def _merged_path_facts(E, Dn, q, K):
@@ -980,9 +1088,9 @@ def _register_write2(reg):
     g = "hexary_write"
     H = HEX + ":HexaryTrie."
     reg.add(g, Contract(H + "_normalize_branch_node", ["self", "node"], norm_cases, setup=norm_setup,
-                        requires=norm_requires, props=("C01", "C02")))
+                        requires=norm_requires, props=("C01", "C02", "C07")))
     reg.add(g, Contract(H + "_delete", ["self", "node", "trie_key"], del_cases, setup=del_setup,
-                        requires=del_requires, props=("C01",)))
+                        requires=del_requires, props=("C01", "C02", "C04", "C07")))
 
 
 # ---------------------------------------------------------------------------------------------------
@@ -1055,8 +1163,27 @@ def api_write_cases(kind):
             for (Dres, fn, Dsrc) in E.ghost.get("hview_rules2", []):
                 E.assume(mk_bool(fn(q)))
             return [("view", mk_bool(HM.hlk(Dnew, q) == z3.If(q == K, V, HM.hlk(Dold, q))))]
+        root_t = old_root
+
+        def exc(e):
+            if len(e.args) < 4:
+                return [("exception-carries-hash-root-key-prefix", False)]
+            try:
+                h = HM.bytes_of(e.args[0])
+            except Unsupported:
+                return [("exception-carries-hash-root-key-prefix", False)]
+            return [("hash-is-absent", mk_bool(z3.Not(z3.Select(ctx.old_has(db), h)))),
+                    ("names-the-root", ops.py_eq(e.args[1], SSeq(root_t, "bytes"))),
+                    ("names-the-key", ops.py_eq(e.args[2], ctx.key))]
+        def make_exc():
+            e = ExcObj(objs.exc(E, "MissingTrieNode"), (objs.hash32(E, "missing"), SSeq(root_t, "bytes"), ctx.key, None))
+            for (_n, c) in exc(e):
+                E.assume(c)
+            return e
+        # C07: a failed set / delete leaves root and database exactly as they were (modifies nothing)
         return [Case("updated", returns=lambda: None, post=post_ok, modifies=[db, (s, "root_hash")]),
-                Case("missing-node", raises=objs.exc(E, "MissingTrieNode"), modifies=[db])]
+                Case("missing-node", raises=objs.exc(E, "MissingTrieNode"), modifies=[], exc=exc,
+                     make=None if hasattr(ctx, "outcome") else make_exc)]
     return cases
 
 
@@ -1066,13 +1193,13 @@ def _register_api_write(reg):
                                      requires=setroot_requires, props=("C01", "C02", "C04")))
     g = "hexary_api"
     reg.add(g, Contract(H + "set", ["self", "key", "value"], api_write_cases("set"), setup=api_write_setup(True),
-                        props=("C01",)))
+                        props=("C01", "C02", "C04", "C07")))
     reg.add(g, Contract(H + "delete", ["self", "key"], api_write_cases("delete"), setup=api_write_setup(False),
-                        props=("C01",)))
+                        props=("C01", "C02", "C04", "C07")))
     reg.add(g, Contract(H + "__setitem__", ["self", "key", "value"], api_write_cases("set"), setup=api_write_setup(True),
-                        props=("C01",)))
+                        props=("C01", "C02", "C04", "C07")))
     reg.add(g, Contract(H + "__delitem__", ["self", "key"], api_write_cases("delete"), setup=api_write_setup(False),
-                        props=("C01",)))
+                        props=("C01", "C02", "C04", "C07")))
 
 
 # ---------------------------------------------------------------------------------------------------
